@@ -64,8 +64,12 @@ impl Op {
             Op::Scopes => json!({"op": "scopes"}),
             Op::Vars(n) => json!({"op": "variables", "ref": n}),
             Op::Evaluate(e) => json!({"op": "evaluate", "expr": e}),
-            Op::SetBreakpoints(b) => json!({"op": "setBreakpoints", "lines": b.iter().map(|(l, c)| json!([l, c])).collect::<Vec<_>>()}),
-            Op::SetBreakpointsIn(f, b) => json!({"op": "setBreakpointsIn", "file": f, "lines": b.iter().map(|(l, c)| json!([l, c])).collect::<Vec<_>>()}),
+            Op::SetBreakpoints(b) => {
+                json!({"op": "setBreakpoints", "lines": b.iter().map(|(l, c)| json!([l, c])).collect::<Vec<_>>()})
+            }
+            Op::SetBreakpointsIn(f, b) => {
+                json!({"op": "setBreakpointsIn", "file": f, "lines": b.iter().map(|(l, c)| json!([l, c])).collect::<Vec<_>>()})
+            }
             Op::Threads => json!({"op": "threads"}),
             Op::SetVariable(n, t) => json!({"op": "setVariable", "name": n, "value": t}),
             Op::Pipelined(c) => json!({"op": "pipelined", "cmds": c}),
@@ -88,7 +92,12 @@ impl Op {
                 v.get("lines")?
                     .as_array()?
                     .iter()
-                    .map(|p| Some((p.get(0)?.as_u64()? as usize, p.get(1).and_then(|c| c.as_u64()).map(|c| c as usize))))
+                    .map(|p| {
+                        Some((
+                            p.get(0)?.as_u64()? as usize,
+                            p.get(1).and_then(|c| c.as_u64()).map(|c| c as usize),
+                        ))
+                    })
                     .collect::<Option<Vec<_>>>()?,
             ),
             "setBreakpointsIn" => Op::SetBreakpointsIn(
@@ -96,12 +105,26 @@ impl Op {
                 v.get("lines")?
                     .as_array()?
                     .iter()
-                    .map(|p| Some((p.get(0)?.as_u64()? as usize, p.get(1).and_then(|c| c.as_u64()).map(|c| c as usize))))
+                    .map(|p| {
+                        Some((
+                            p.get(0)?.as_u64()? as usize,
+                            p.get(1).and_then(|c| c.as_u64()).map(|c| c as usize),
+                        ))
+                    })
                     .collect::<Option<Vec<_>>>()?,
             ),
             "threads" => Op::Threads,
-            "pipelined" => Op::Pipelined(v.get("cmds")?.as_array()?.iter().map(|c| c.as_str().map(|x| x.to_string())).collect::<Option<Vec<_>>>()?),
-            "setVariable" => Op::SetVariable(v.get("name")?.as_str()?.to_string(), v.get("value")?.as_str()?.to_string()),
+            "pipelined" => Op::Pipelined(
+                v.get("cmds")?
+                    .as_array()?
+                    .iter()
+                    .map(|c| c.as_str().map(|x| x.to_string()))
+                    .collect::<Option<Vec<_>>>()?,
+            ),
+            "setVariable" => Op::SetVariable(
+                v.get("name")?.as_str()?.to_string(),
+                v.get("value")?.as_str()?.to_string(),
+            ),
             _ => return None,
         })
     }
@@ -150,24 +173,50 @@ impl Case {
                 .get("initial_breakpoints")?
                 .as_array()?
                 .iter()
-                .map(|p| Some((p.get(0)?.as_u64()? as usize, p.get(1).and_then(|c| c.as_u64()).map(|c| c as usize))))
+                .map(|p| {
+                    Some((
+                        p.get(0)?.as_u64()? as usize,
+                        p.get(1).and_then(|c| c.as_u64()).map(|c| c as usize),
+                    ))
+                })
                 .collect::<Option<Vec<_>>>()?,
-            ops: v.get("ops")?.as_array()?.iter().map(Op::from_json).collect::<Option<Vec<_>>>()?,
+            ops: v
+                .get("ops")?
+                .as_array()?
+                .iter()
+                .map(Op::from_json)
+                .collect::<Option<Vec<_>>>()?,
             lines_start_at_1: v.get("lines_start_at_1")?.as_bool()?,
-            seed: v.get("sched_seed").and_then(|s| s.as_str()).and_then(parse_u64)?,
-            entropy_seed: v.get("entropy_seed").and_then(|s| s.as_str()).and_then(parse_u64)?,
+            seed: v
+                .get("sched_seed")
+                .and_then(|s| s.as_str())
+                .and_then(parse_u64)?,
+            entropy_seed: v
+                .get("entropy_seed")
+                .and_then(|s| s.as_str())
+                .and_then(parse_u64)?,
             knobs: ExecKnobs::from_json(v.get("knobs")?)?,
-            end_with_drop: v.get("end_with_drop").and_then(|b| b.as_bool()).unwrap_or(false),
-            fast_client: v.get("fast_client").and_then(|b| b.as_bool()).unwrap_or(false),
+            end_with_drop: v
+                .get("end_with_drop")
+                .and_then(|b| b.as_bool())
+                .unwrap_or(false),
+            fast_client: v
+                .get("fast_client")
+                .and_then(|b| b.as_bool())
+                .unwrap_or(false),
             prelude: v.get("prelude").and_then(|b| b.as_u64()).unwrap_or(0) as u8,
-            omit_start_flags: v.get("omit_start_flags").and_then(|b| b.as_bool()).unwrap_or(false),
+            omit_start_flags: v
+                .get("omit_start_flags")
+                .and_then(|b| b.as_bool())
+                .unwrap_or(false),
         })
     }
 }
 
 const STRAIGHT: &[&str] = &[
-    "lda #$11", "ldx #$22", "ldy #$33", "sta $10", "stx $11", "sty $12", "inx", "iny", "dex", "dey", "tax", "tay", "txa",
-    "tya", "clc", "sec", "adc #$05", "nop", "inc $10", "dec $11", "lda $10", "ora #$40", "and #$7f", "eor #$ff", "asl", "lsr",
+    "lda #$11", "ldx #$22", "ldy #$33", "sta $10", "stx $11", "sty $12", "inx", "iny", "dex",
+    "dey", "tax", "tay", "txa", "tya", "clc", "sec", "adc #$05", "nop", "inc $10", "dec $11",
+    "lda $10", "ora #$40", "and #$7f", "eor #$ff", "asl", "lsr",
 ];
 
 /// One `.test` body from a small grammar over the subset the property names:
@@ -188,46 +237,59 @@ pub fn gen_program_ext(rng: &mut Rng) -> (String, Option<String>, bool) {
     let n_subs = rng.below(3);
     let mut body = String::new();
     let mut label_id = 0;
-    let mut emit_block = |rng: &mut Rng, out: &mut String, depth: usize, n_subs: usize, allow_calls: bool| {
-        let n = rng.range(2, 6);
-        for _ in 0..n {
-            match rng.below(10) {
-                0 | 1 => {
-                    // counted loop
-                    label_id += 1;
-                    let cnt = rng.range(1, 6);
-                    let reg = if rng.chance(1, 2) { ("ldx", "dex") } else { ("ldy", "dey") };
-                    out.push_str(&format!("    {} #{}\nloop{}:\n", reg.0, cnt, label_id));
-                    for _ in 0..rng.range(1, 3) {
-                        let ins = loop {
-                            let i = *rng.pick(STRAIGHT);
-                            // the loop body must not clobber its counter
-                            if !(i.starts_with("ld") && i.contains(&reg.0[2..3])) && !i.starts_with("ta") && !i.starts_with("in") && !i.starts_with("de") {
-                                break i;
-                            }
+    let mut emit_block =
+        |rng: &mut Rng, out: &mut String, depth: usize, n_subs: usize, allow_calls: bool| {
+            let n = rng.range(2, 6);
+            for _ in 0..n {
+                match rng.below(10) {
+                    0 | 1 => {
+                        // counted loop
+                        label_id += 1;
+                        let cnt = rng.range(1, 6);
+                        let reg = if rng.chance(1, 2) {
+                            ("ldx", "dex")
+                        } else {
+                            ("ldy", "dey")
                         };
-                        out.push_str(&format!("    {}\n", ins));
+                        out.push_str(&format!("    {} #{}\nloop{}:\n", reg.0, cnt, label_id));
+                        for _ in 0..rng.range(1, 3) {
+                            let ins = loop {
+                                let i = *rng.pick(STRAIGHT);
+                                // the loop body must not clobber its counter
+                                if !(i.starts_with("ld") && i.contains(&reg.0[2..3]))
+                                    && !i.starts_with("ta")
+                                    && !i.starts_with("in")
+                                    && !i.starts_with("de")
+                                {
+                                    break i;
+                                }
+                            };
+                            out.push_str(&format!("    {}\n", ins));
+                        }
+                        out.push_str(&format!("    {}\n    bne loop{}\n", reg.1, label_id));
                     }
-                    out.push_str(&format!("    {}\n    bne loop{}\n", reg.1, label_id));
-                }
-                2 if allow_calls && n_subs > 0 && depth < 2 => {
-                    out.push_str(&format!("    jsr sub{}\n", rng.below(n_subs)));
-                }
-                3 if use_macro => {
-                    out.push_str(&format!("    put({})\n", rng.below(200)));
-                }
-                4 => {
-                    out.push_str(&format!(".loop {} {{\n    inx\n}}\n", rng.range(2, 3)));
-                }
-                5 if rng.chance(1, 2) => {
-                    out.push_str(if rng.chance(1, 2) { "    .assert 1 == 1\n" } else { "    .trace (cpu.a)\n" });
-                }
-                _ => {
-                    out.push_str(&format!("    {}\n", rng.pick(STRAIGHT)));
+                    2 if allow_calls && n_subs > 0 && depth < 2 => {
+                        out.push_str(&format!("    jsr sub{}\n", rng.below(n_subs)));
+                    }
+                    3 if use_macro => {
+                        out.push_str(&format!("    put({})\n", rng.below(200)));
+                    }
+                    4 => {
+                        out.push_str(&format!(".loop {} {{\n    inx\n}}\n", rng.range(2, 3)));
+                    }
+                    5 if rng.chance(1, 2) => {
+                        out.push_str(if rng.chance(1, 2) {
+                            "    .assert 1 == 1\n"
+                        } else {
+                            "    .trace (cpu.a)\n"
+                        });
+                    }
+                    _ => {
+                        out.push_str(&format!("    {}\n", rng.pick(STRAIGHT)));
+                    }
                 }
             }
-        }
-    };
+        };
     emit_block(rng, &mut body, 0, n_subs, true);
     if n_subs > 0 && !body.contains("jsr") {
         body.push_str("    jsr sub0\n");
@@ -246,7 +308,14 @@ pub fn gen_program_ext(rng: &mut Rng) -> (String, Option<String>, bool) {
         match rng.below(12) {
             // recursion: the same code runs in several activations at once
             0 | 1 if s == 0 => {
-                subs.push_str(&format!("    ldx #{}\nrec{}:\n    dex\n    beq rdone{}\n    jsr rec{}\nrdone{}:\n", rng.range(2, 4), s, s, s, s));
+                subs.push_str(&format!(
+                    "    ldx #{}\nrec{}:\n    dex\n    beq rdone{}\n    jsr rec{}\nrdone{}:\n",
+                    rng.range(2, 4),
+                    s,
+                    s,
+                    s,
+                    s
+                ));
             }
             // a delay loop of about 70 000 instructions: one `next` or `stepOut` has a lot to run through
             2 if !long_running => {
@@ -273,10 +342,18 @@ pub fn gen_program_ext(rng: &mut Rng) -> (String, Option<String>, bool) {
     // one program with subroutines in three keeps them in a file of its own
     if n_subs > 0 && !use_macro && rng.chance(1, 3) {
         body.push_str("    .import * from \"lib.asm\"\n");
-        return (format!("{}.test \"t\" {{\n{}}}\n", top, body), Some(subs), long_running);
+        return (
+            format!("{}.test \"t\" {{\n{}}}\n", top, body),
+            Some(subs),
+            long_running,
+        );
     }
     body.push_str(&subs);
-    (format!("{}.test \"t\" {{\n{}}}\n", top, body), None, long_running)
+    (
+        format!("{}.test \"t\" {{\n{}}}\n", top, body),
+        None,
+        long_running,
+    )
 }
 
 pub fn gen_case(seed: u64, k: u64) -> Case {
@@ -298,7 +375,11 @@ pub fn gen_case(seed: u64, k: u64) -> Case {
     let pick_lib_bps = |r: &mut Rng| -> Vec<(usize, Option<usize>)> {
         let mut v: Vec<(usize, Option<usize>)> = vec![];
         for _ in 0..r.below(3) {
-            if let Some(line) = if lib_lines.is_empty() { None } else { Some(*r.pick(&lib_lines)) } {
+            if let Some(line) = if lib_lines.is_empty() {
+                None
+            } else {
+                Some(*r.pick(&lib_lines))
+            } {
                 if !v.iter().any(|(l, _)| *l == line) {
                     v.push((line, None));
                 }
@@ -310,8 +391,16 @@ pub fn gen_case(seed: u64, k: u64) -> Case {
         let n = r.below(4);
         let mut v = vec![];
         for _ in 0..n {
-            let line = if r.chance(1, 8) || code_lines.is_empty() { r.below(n_lines.max(1)) } else { *r.pick(&code_lines) };
-            let col = if r.chance(1, 6) { Some(r.range(4, 8)) } else { None };
+            let line = if r.chance(1, 8) || code_lines.is_empty() {
+                r.below(n_lines.max(1))
+            } else {
+                *r.pick(&code_lines)
+            };
+            let col = if r.chance(1, 6) {
+                Some(r.range(4, 8))
+            } else {
+                None
+            };
             if !v.iter().any(|(l, _)| *l == line) {
                 v.push((line, col));
             }
@@ -349,7 +438,17 @@ pub fn gen_case(seed: u64, k: u64) -> Case {
             6 => Op::StackTrace,
             7 => Op::Scopes,
             8 => Op::Vars(*r.pick(&[1u8, 1, 2, 3])),
-            9 => Op::Evaluate(r.pick_str(&["cpu.a", "cpu.x", "cpu.y", "cpu.a + cpu.x", "cpu.flags.zero", "cpu.flags.carry"]).to_string()),
+            9 => Op::Evaluate(
+                r.pick_str(&[
+                    "cpu.a",
+                    "cpu.x",
+                    "cpu.y",
+                    "cpu.a + cpu.x",
+                    "cpu.flags.zero",
+                    "cpu.flags.carry",
+                ])
+                .to_string(),
+            ),
             10 if lib.is_some() => {
                 if r.chance(1, 2) {
                     Op::SetBreakpointsIn(0, pick_bps(&mut r))
@@ -361,7 +460,14 @@ pub fn gen_case(seed: u64, k: u64) -> Case {
             11 => Op::Threads,
             13 => {
                 let n = r.range(2, 3);
-                Op::Pipelined((0..n).map(|_| r.pick_str(&["pause", "continue", "continue", "next", "stepIn"]).to_string()).collect())
+                Op::Pipelined(
+                    (0..n)
+                        .map(|_| {
+                            r.pick_str(&["pause", "continue", "continue", "next", "stepIn"])
+                                .to_string()
+                        })
+                        .collect(),
+                )
             }
             _ => {
                 let name = r.pick_str(&["A", "X", "Y", "A", "X", "PC"]).to_string();
@@ -392,13 +498,20 @@ pub fn gen_case(seed: u64, k: u64) -> Case {
                 early_coin: *r.pick(&[2u32, 4, 8, 16]),
                 stall_bound_us: 1_000_000,
             },
-            net: mos_simrt::net::NetKnobs { max_chunk: *r.pick(&[0usize, 0, 0, 3, 64]), buffer_cap: *r.pick(&[1usize << 20, 1 << 20, 4096]) },
+            net: mos_simrt::net::NetKnobs {
+                max_chunk: *r.pick(&[0usize, 0, 0, 3, 64]),
+                buffer_cap: *r.pick(&[1usize << 20, 1 << 20, 4096]),
+            },
             // a long-running subroutine costs a few scheduling steps per instruction
             max_steps: if long_running { 4_000_000 } else { 600_000 },
         },
         end_with_drop: r.chance(1, 4),
         fast_client,
-        prelude: if r.chance(1, 5) { 1 + r.below(3) as u8 } else { 0 },
+        prelude: if r.chance(1, 5) {
+            1 + r.below(3) as u8
+        } else {
+            0
+        },
         omit_start_flags,
     }
 }
@@ -472,7 +585,12 @@ fn sources(program: &str, lib: Option<&str>, path: &str) -> InMemoryParsingSourc
 
 /// The uninterrupted run, with the client's register writes applied at the positions at which
 /// the (halted) machine received them.
-pub fn build_reference_with(program: &str, lib: Option<&str>, path: &str, overrides: &[(u64, String, u8)]) -> Reference {
+pub fn build_reference_with(
+    program: &str,
+    lib: Option<&str>,
+    path: &str,
+    overrides: &[(u64, String, u8)],
+) -> Reference {
     let mut reference = Reference {
         overrides: overrides.to_vec(),
         trace: vec![],
@@ -580,7 +698,13 @@ impl Reference {
             let cg = cg.lock().unwrap();
             cg.source_map().address_to_offset(pc as usize).map(|o| {
                 let sl = cg.tree().code_map.look_up_span(o.span);
-                Frame { path: sl.file.name().to_string(), line: sl.begin.line, column: sl.begin.column, end_line: sl.end.line, end_column: sl.end.column }
+                Frame {
+                    path: sl.file.name().to_string(),
+                    line: sl.begin.line,
+                    column: sl.begin.column,
+                    end_line: sl.end.line,
+                    end_column: sl.end.column,
+                }
             })
         });
         self.frames.insert(pc, f.clone());
@@ -588,18 +712,34 @@ impl Reference {
     }
 
     /// address ranges of a breakpoint key (line + LIB_BASE * file, column)
-    pub fn ranges_for(&mut self, program: &str, lib: Option<&str>, path: &str, line: usize, col: Option<usize>) -> Vec<Range<usize>> {
+    pub fn ranges_for(
+        &mut self,
+        program: &str,
+        lib: Option<&str>,
+        path: &str,
+        line: usize,
+        col: Option<usize>,
+    ) -> Vec<Range<usize>> {
         if let Some(r) = self.bp_ranges.get(&(line, col)) {
             return r.clone();
         }
-        let (file_path, file_line) = if line >= LIB_BASE { (lib_path(), line - LIB_BASE) } else { (path.to_string(), line) };
+        let (file_path, file_line) = if line >= LIB_BASE {
+            (lib_path(), line - LIB_BASE)
+        } else {
+            (path.to_string(), line)
+        };
         // recompute through a fresh codegen of the same program (cheap, deterministic)
         let src = sources(program, lib, path).into();
         let v = match TestRunner::new(src, Path::new(path), &"t".into()) {
             Ok(runner) => {
                 let cg = runner.codegen();
                 let cg = cg.lock().unwrap();
-                let r: Vec<Range<usize>> = cg.source_map().line_col_to_offsets(&cg.tree().code_map, &file_path, file_line, col).into_iter().map(|o| o.pc.clone()).collect();
+                let r: Vec<Range<usize>> = cg
+                    .source_map()
+                    .line_col_to_offsets(&cg.tree().code_map, &file_path, file_line, col)
+                    .into_iter()
+                    .map(|o| o.pc.clone())
+                    .collect();
                 r
             }
             Err(_) => vec![],
@@ -694,13 +834,21 @@ fn var_value(resp: &Value, name: &str) -> Option<String> {
         .as_array()?
         .iter()
         .find(|v| v.get("name").and_then(|n| n.as_str()) == Some(name))
-        .and_then(|v| v.get("value").and_then(|x| x.as_str()).map(|s| s.to_string()))
+        .and_then(|v| {
+            v.get("value")
+                .and_then(|x| x.as_str())
+                .map(|s| s.to_string())
+        })
 }
 
 impl<'a> Session<'a> {
     fn fail(&mut self, class: &str, sig: &str, msg: String) {
         if self.v.found.is_none() {
-            hist("harness", "violation", json!({"class": class, "message": msg}));
+            hist(
+                "harness",
+                "violation",
+                json!({"class": class, "message": msg}),
+            );
             self.v.found = Some((class.to_string(), sig.to_string(), msg));
         }
     }
@@ -708,7 +856,11 @@ impl<'a> Session<'a> {
         *self.v.checks.entry(k.to_string()).or_insert(0) += 1;
     }
     fn line_out(&self, l: usize) -> usize {
-        if self.case.lines_start_at_1 { l + 1 } else { l }
+        if self.case.lines_start_at_1 {
+            l + 1
+        } else {
+            l
+        }
     }
 
     fn in_ranges(&mut self, pc: u16, bps: &[(usize, Option<usize>)]) -> bool {
@@ -716,7 +868,10 @@ impl<'a> Session<'a> {
         let lib = self.case.lib.clone();
         let path = self.path.clone();
         for (l, c) in bps {
-            for r in self.reference.ranges_for(&program, lib.as_deref(), &path, *l, *c) {
+            for r in self
+                .reference
+                .ranges_for(&program, lib.as_deref(), &path, *l, *c)
+            {
                 if r.start <= pc as usize && (pc as usize) < r.end {
                     return true;
                 }
@@ -726,28 +881,55 @@ impl<'a> Session<'a> {
     }
 
     /// variables(1): returns the index identified by CYC (and checks registers when `check` is set)
-    fn query_registers(&mut self, check_against: Option<usize>) -> Result<Option<usize>, ClientErr> {
-        let r = self.dap.request("variables", json!({"variablesReference": 1}))?;
+    fn query_registers(
+        &mut self,
+        check_against: Option<usize>,
+    ) -> Result<Option<usize>, ClientErr> {
+        let r = self
+            .dap
+            .request("variables", json!({"variablesReference": 1}))?;
         let cyc = var_value(&r, "CYC").and_then(|s| s.parse::<u64>().ok());
         let cyc = match cyc {
             Some(c) => c,
             None => return Ok(None),
         };
         let idx = self.reference.index_of_cycles(cyc);
-        if idx.is_none() && !self.reference.complete() && self.reference.trace.last().map(|t| t.cycles < cyc).unwrap_or(true) {
+        if idx.is_none()
+            && !self.reference.complete()
+            && self
+                .reference
+                .trace
+                .last()
+                .map(|t| t.cycles < cyc)
+                .unwrap_or(true)
+        {
             // the machine has run further than the reference run is followed (HARD_TRACE_CAP): nothing to compare with
-            self.v.notes.push(format!("CYC {} lies beyond the {} instructions of the reference run that are followed", cyc, self.reference.trace.len()));
+            self.v.notes.push(format!(
+                "CYC {} lies beyond the {} instructions of the reference run that are followed",
+                cyc,
+                self.reference.trace.len()
+            ));
             return Ok(None);
         }
         if idx.is_none() {
-            self.fail("state_not_on_reference_run", "state_not_on_reference_run", format!("registers report CYC={} which is not a state of the uninterrupted run", cyc));
+            self.fail(
+                "state_not_on_reference_run",
+                "state_not_on_reference_run",
+                format!(
+                    "registers report CYC={} which is not a state of the uninterrupted run",
+                    cyc
+                ),
+            );
             return Ok(None);
         }
         let idx = idx.unwrap();
         if let Some(exp) = check_against {
             self.count("halted_cyc_stable");
             if idx != exp {
-                let (e, g) = (self.reference.trace[exp].clone(), self.reference.trace[idx].clone());
+                let (e, g) = (
+                    self.reference.trace[exp].clone(),
+                    self.reference.trace[idx].clone(),
+                );
                 self.fail(
                     "machine_moved_while_stopped",
                     "moved_while_stopped",
@@ -760,7 +942,14 @@ impl<'a> Session<'a> {
                 let got = var_value(&r, n).and_then(|s| s.parse::<i64>().ok());
                 self.count("register_values");
                 if got != Some(want as i64) {
-                    self.fail("wrong_register", "wrong_register", format!("register {} reported {:?}, the machine at instruction #{} has {}", n, got, idx, want));
+                    self.fail(
+                        "wrong_register",
+                        "wrong_register",
+                        format!(
+                            "register {} reported {:?}, the machine at instruction #{} has {}",
+                            n, got, idx, want
+                        ),
+                    );
                 }
             }
         }
@@ -802,7 +991,10 @@ impl<'a> Session<'a> {
         if let Some(exp) = by_step_expect {
             self.count("step_target");
             if idx != exp {
-                let (e, g) = (self.reference.trace[exp].clone(), self.reference.trace[idx].clone());
+                let (e, g) = (
+                    self.reference.trace[exp].clone(),
+                    self.reference.trace[idx].clone(),
+                );
                 self.fail("step_target", "step_target", format!("after the step the machine should be at instruction #{} (pc ${:04x}) of the uninterrupted run, it is at #{} (pc ${:04x})", exp, e.pc, idx, g.pc));
             }
         } else if let Some(i0) = self.run_from.take() {
@@ -886,7 +1078,13 @@ impl<'a> Session<'a> {
         let last = len - 1;
         let complete = self.reference.complete();
         // past the last instruction of a finished run the machine stays where it is
-        let next_one = if i + 1 < len { Some(i + 1) } else if complete { Some(last) } else { None };
+        let next_one = if i + 1 < len {
+            Some(i + 1)
+        } else if complete {
+            Some(last)
+        } else {
+            None
+        };
         let t_i = self.reference.trace[i].clone();
         match op {
             Op::StepIn => next_one,
@@ -923,7 +1121,12 @@ impl<'a> Session<'a> {
 
     fn check_stack_trace(&mut self, idx: usize) -> Result<(), ClientErr> {
         let r = self.dap.request("stackTrace", json!({"threadId": 1}))?;
-        let frames = r.get("body").and_then(|b| b.get("stackFrames")).and_then(|f| f.as_array()).cloned().unwrap_or_default();
+        let frames = r
+            .get("body")
+            .and_then(|b| b.get("stackFrames"))
+            .and_then(|f| f.as_array())
+            .cloned()
+            .unwrap_or_default();
         let pc = self.reference.trace[idx].pc;
         let want = self.reference.frame_of(pc);
         self.count("frame_contains_pc");
@@ -931,10 +1134,20 @@ impl<'a> Session<'a> {
             (Some(f), Some(w)) => {
                 let got = (
                     f.get("line").and_then(|x| x.as_u64()).unwrap_or(u64::MAX) as usize,
-                    f.get("endLine").and_then(|x| x.as_u64()).unwrap_or(u64::MAX) as usize,
-                    f.get("source").and_then(|s| s.get("path")).and_then(|p| p.as_str()).unwrap_or("").to_string(),
+                    f.get("endLine")
+                        .and_then(|x| x.as_u64())
+                        .unwrap_or(u64::MAX) as usize,
+                    f.get("source")
+                        .and_then(|s| s.get("path"))
+                        .and_then(|p| p.as_str())
+                        .unwrap_or("")
+                        .to_string(),
                 );
-                let exp = (self.line_out(w.line), self.line_out(w.end_line), w.path.clone());
+                let exp = (
+                    self.line_out(w.line),
+                    self.line_out(w.end_line),
+                    w.path.clone(),
+                );
                 if got != exp {
                     self.fail(
                         "frame_not_at_pc",
@@ -969,7 +1182,11 @@ impl<'a> Session<'a> {
         match (op, self.view.clone()) {
             (Op::Delay(us), _) => clock::sleep(Duration::from_micros(*us)),
             (Op::WaitStopped(ms), View::Running) => {
-                if self.dap.wait_event("stopped", Duration::from_millis(*ms)).is_some() {
+                if self
+                    .dap
+                    .wait_event("stopped", Duration::from_millis(*ms))
+                    .is_some()
+                {
                     self.on_stopped(None)?;
                 } else if self.dap.take_event("terminated").is_some() {
                     self.on_terminated();
@@ -980,7 +1197,11 @@ impl<'a> Session<'a> {
                 self.pause_sent = true;
                 let r = self.dap.request("pause", json!({"threadId": 1}))?;
                 if r.get("success").and_then(|s| s.as_bool()) == Some(true) {
-                    if self.dap.wait_event("stopped", Duration::from_secs(5)).is_some() {
+                    if self
+                        .dap
+                        .wait_event("stopped", Duration::from_secs(5))
+                        .is_some()
+                    {
                         self.on_stopped(None)?;
                     } else if self.dap.take_event("terminated").is_some() {
                         self.on_terminated();
@@ -992,7 +1213,9 @@ impl<'a> Session<'a> {
                 self.dap.request("continue", json!({"threadId": 1}))?;
                 self.begin_free_run(i as i64);
             }
-            (Op::Next, View::Running) | (Op::StepIn, View::Running) | (Op::StepOut, View::Running) => {
+            (Op::Next, View::Running)
+            | (Op::StepIn, View::Running)
+            | (Op::StepOut, View::Running) => {
                 // A step request while the machine runs freely ("any timing of client requests"): where it
                 // ends up is not specified, but it must end in a consistent stop. The instructions executed by
                 // the step itself ignore breakpoints by design, so this run is not judged for run-overs.
@@ -1006,7 +1229,11 @@ impl<'a> Session<'a> {
                 self.run_from = None;
                 let r = self.dap.request(cmd, json!({"threadId": 1}))?;
                 if r.get("success").and_then(|s| s.as_bool()) == Some(true) {
-                    if self.dap.wait_event("stopped", Duration::from_secs(5)).is_some() {
+                    if self
+                        .dap
+                        .wait_event("stopped", Duration::from_secs(5))
+                        .is_some()
+                    {
                         self.on_stopped(None)?;
                     } else if self.dap.take_event("terminated").is_some() {
                         self.on_terminated();
@@ -1016,7 +1243,9 @@ impl<'a> Session<'a> {
             (Op::StepOut, View::Stopped(i)) if self.reference.trace[i].return_to.is_none() => {
                 // not inside a subroutine: the property does not say what stepOut means here
             }
-            (Op::Next, View::Stopped(i)) | (Op::StepIn, View::Stopped(i)) | (Op::StepOut, View::Stopped(i)) => {
+            (Op::Next, View::Stopped(i))
+            | (Op::StepIn, View::Stopped(i))
+            | (Op::StepOut, View::Stopped(i)) => {
                 self.v.steps += 1;
                 while self.dap.take_event("stopped").is_some() {}
                 let cmd = match op {
@@ -1048,9 +1277,16 @@ impl<'a> Session<'a> {
                 let _ = self.query_registers(None)?;
             }
             (Op::Vars(2), View::Stopped(i)) => {
-                let r = self.dap.request("variables", json!({"variablesReference": 2}))?;
+                let r = self
+                    .dap
+                    .request("variables", json!({"variablesReference": 2}))?;
                 let f = self.reference.trace[i].flags;
-                for (name, bit) in [("N - Negative", 128u8), ("V - Overflow", 64), ("Z - Zero", 2), ("C - Carry", 1)] {
+                for (name, bit) in [
+                    ("N - Negative", 128u8),
+                    ("V - Overflow", 64),
+                    ("Z - Zero", 2),
+                    ("C - Carry", 1),
+                ] {
                     self.count("flag_values");
                     let want = if f & bit != 0 { "true" } else { "false" };
                     if var_value(&r, name).as_deref() != Some(want) {
@@ -1059,7 +1295,9 @@ impl<'a> Session<'a> {
                 }
             }
             (Op::Vars(n), _) => {
-                let _ = self.dap.request("variables", json!({"variablesReference": n}))?;
+                let _ = self
+                    .dap
+                    .request("variables", json!({"variablesReference": n}))?;
             }
             (Op::Evaluate(e), View::Stopped(i)) => {
                 let r = self.dap.request("evaluate", json!({"expression": e}))?;
@@ -1073,8 +1311,15 @@ impl<'a> Session<'a> {
                     "cpu.flags.carry" => Some((t.flags & 1) as i64),
                     _ => None,
                 };
-                if let (Some(w), true) = (want, r.get("success").and_then(|s| s.as_bool()) == Some(true)) {
-                    let got = r.get("body").and_then(|b| b.get("result")).and_then(|x| x.as_str()).map(|s| s.to_string());
+                if let (Some(w), true) = (
+                    want,
+                    r.get("success").and_then(|s| s.as_bool()) == Some(true),
+                ) {
+                    let got = r
+                        .get("body")
+                        .and_then(|b| b.get("result"))
+                        .and_then(|x| x.as_str())
+                        .map(|s| s.to_string());
                     self.count("evaluate_values");
                     if got.as_deref() != Some(w.to_string().as_str()) {
                         self.fail("wrong_evaluate", "wrong_evaluate", format!("evaluate '{}' returned {:?}, the halted machine (instruction #{}) gives {}", e, got, i, w));
@@ -1084,7 +1329,9 @@ impl<'a> Session<'a> {
             (Op::Evaluate(e), _) => {
                 let _ = self.dap.request("evaluate", json!({"expression": e}))?;
             }
-            (Op::Pipelined(cmds), view) if view == View::Running || matches!(view, View::Stopped(_)) => {
+            (Op::Pipelined(cmds), view)
+                if view == View::Running || matches!(view, View::Stopped(_)) =>
+            {
                 // A client that does not wait: the requests are on the wire before any of them is answered. Which
                 // of them the session handles before the machine's own events is up to the scheduler; whatever the
                 // order, the LAST run-state event the client receives must describe the machine: after `stopped`
@@ -1137,9 +1384,16 @@ impl<'a> Session<'a> {
                 }
             }
             (Op::SetVariable(name, text), View::Stopped(i)) => {
-                let r = self.dap.request("setVariable", json!({"variablesReference": 1, "name": name, "value": text}))?;
+                let r = self.dap.request(
+                    "setVariable",
+                    json!({"variablesReference": 1, "name": name, "value": text}),
+                )?;
                 let accepted = r.get("success").and_then(|s| s.as_bool()) == Some(true);
-                let value = r.get("body").and_then(|b| b.get("value")).and_then(|x| x.as_str()).and_then(|s| s.parse::<u8>().ok());
+                let value = r
+                    .get("body")
+                    .and_then(|b| b.get("value"))
+                    .and_then(|x| x.as_str())
+                    .and_then(|s| s.parse::<u8>().ok());
                 if let (true, Some(value)) = (accepted, value) {
                     self.v.set_variables += 1;
                     // the run the machine is on from here: the same program with this write applied at this position
@@ -1152,7 +1406,10 @@ impl<'a> Session<'a> {
                     let mut nr = build_reference_with(&program, lib.as_deref(), &path, &ov);
                     if !nr.ok || nr.index_of_cycles(cyc) != Some(i) {
                         // e.g. the modified run does not end within the trace budget: nothing to compare with any more
-                        self.v.notes.push(format!("reference after setVariable unavailable: {}", nr.error));
+                        self.v.notes.push(format!(
+                            "reference after setVariable unavailable: {}",
+                            nr.error
+                        ));
                         self.view = View::Unknown;
                         return Ok(());
                     }
@@ -1168,9 +1425,16 @@ impl<'a> Session<'a> {
                     Op::SetBreakpoints(b) => (0usize, b.clone()),
                     _ => unreachable!(),
                 };
-                let source_path = if file == 0 { self.path.clone() } else { lib_path() };
+                let source_path = if file == 0 {
+                    self.path.clone()
+                } else {
+                    lib_path()
+                };
                 // keys of this source's breakpoints; the other source's breakpoints stay as they are
-                let keys: Vec<(usize, Option<usize>)> = plain.iter().map(|(l, c)| (l + LIB_BASE * file, *c)).collect();
+                let keys: Vec<(usize, Option<usize>)> = plain
+                    .iter()
+                    .map(|(l, c)| (l + LIB_BASE * file, *c))
+                    .collect();
                 let lines: Vec<Value> = plain
                     .iter()
                     .map(|(l, c)| match c {
@@ -1178,23 +1442,39 @@ impl<'a> Session<'a> {
                         None => json!({"line": self.line_out(*l)}),
                     })
                     .collect();
-                let r = self.dap.request("setBreakpoints", json!({"source": {"path": source_path}, "breakpoints": lines}))?;
+                let r = self.dap.request(
+                    "setBreakpoints",
+                    json!({"source": {"path": source_path}, "breakpoints": lines}),
+                )?;
                 if r.get("success").and_then(|s| s.as_bool()) == Some(true) {
-                    let in_this_file = |b: &(usize, Option<usize>)| (b.0 >= LIB_BASE) == (file == 1);
-                    let mut bps: Vec<(usize, Option<usize>)> = self.active_bps.iter().filter(|b| !in_this_file(b)).cloned().collect();
+                    let in_this_file =
+                        |b: &(usize, Option<usize>)| (b.0 >= LIB_BASE) == (file == 1);
+                    let mut bps: Vec<(usize, Option<usize>)> = self
+                        .active_bps
+                        .iter()
+                        .filter(|b| !in_this_file(b))
+                        .cloned()
+                        .collect();
                     bps.extend(keys.iter().cloned());
                     self.active_bps = bps.clone();
                     if view == View::Running {
                         self.v.bp_changes_while_running += 1;
                         // only breakpoints that stay for the whole run are judged from its start
-                        let keep: Vec<_> = self.run_bps_throughout.iter().filter(|b| bps.contains(b)).cloned().collect();
+                        let keep: Vec<_> = self
+                            .run_bps_throughout
+                            .iter()
+                            .filter(|b| bps.contains(b))
+                            .cloned()
+                            .collect();
                         self.run_bps_throughout = keep;
                         // breakpoints added earlier in this run and now removed again are no longer judged
                         // (the moment of their removal relative to the machine's position is unknown)
                         self.run_bps_added.retain(|(b, _)| bps.contains(b));
                         let since = self.query_registers(None)?;
                         for b in &bps {
-                            if !self.run_bps_throughout.contains(b) && !self.run_bps_added.iter().any(|(x, _)| x == b) {
+                            if !self.run_bps_throughout.contains(b)
+                                && !self.run_bps_added.iter().any(|(x, _)| x == b)
+                            {
                                 self.run_bps_added.push((*b, since));
                             }
                             if !self.run_bps_ever.contains(b) {
@@ -1213,9 +1493,14 @@ impl<'a> Session<'a> {
 pub fn scenario(case: &Case, slot: &Arc<StdMutex<Option<Verdict>>>) {
     let path = format!("{}/main.asm", WS);
     let reference = build_reference(&case.program, case.lib.as_deref(), &path);
-    let mut verdict = Verdict { trace_len: reference.trace.len(), ..Default::default() };
+    let mut verdict = Verdict {
+        trace_len: reference.trace.len(),
+        ..Default::default()
+    };
     if !reference.ok {
-        verdict.notes.push(format!("reference run failed: {}", reference.error));
+        verdict
+            .notes
+            .push(format!("reference run failed: {}", reference.error));
         *slot.lock().unwrap() = Some(verdict);
         panic!("{} no reference", ABORT_MARKER);
     }
@@ -1238,9 +1523,17 @@ pub fn scenario(case: &Case, slot: &Arc<StdMutex<Option<Verdict>>>) {
             // thread, a stale position) would show in the judged session.
             let mut p = DapClient::connect(PORT, 400).ok_or(ClientErr::Closed)?;
             p.request("initialize", json!({"clientID": "sim-prelude", "linesStartAt1": false, "columnsStartAt1": false}))?;
-            p.request("launch", json!({"workspace": WS, "testRunner": {"testCaseName": "t"}}))?;
-            let all: Vec<Value> = (0..case.program.lines().count()).map(|l| json!({ "line": l })).collect();
-            p.request("setBreakpoints", json!({"source": {"path": path}, "breakpoints": all}))?;
+            p.request(
+                "launch",
+                json!({"workspace": WS, "testRunner": {"testCaseName": "t"}}),
+            )?;
+            let all: Vec<Value> = (0..case.program.lines().count())
+                .map(|l| json!({ "line": l }))
+                .collect();
+            p.request(
+                "setBreakpoints",
+                json!({"source": {"path": path}, "breakpoints": all}),
+            )?;
             p.request("configurationDone", Value::Null)?;
             let _ = p.wait_event("stopped", Duration::from_millis(300));
             match case.prelude {
@@ -1261,7 +1554,10 @@ pub fn scenario(case: &Case, slot: &Arc<StdMutex<Option<Verdict>>>) {
         } else {
             c.request("initialize", json!({"clientID": "sim", "linesStartAt1": case.lines_start_at_1, "columnsStartAt1": case.lines_start_at_1}))?;
         }
-        let l = c.request("launch", json!({"workspace": WS, "testRunner": {"testCaseName": "t"}}))?;
+        let l = c.request(
+            "launch",
+            json!({"workspace": WS, "testRunner": {"testCaseName": "t"}}),
+        )?;
         if l.get("success").and_then(|s| s.as_bool()) != Some(true) {
             return Err(ClientErr::Io(format!("launch failed: {}", l)));
         }
@@ -1308,7 +1604,8 @@ pub fn scenario(case: &Case, slot: &Arc<StdMutex<Option<Verdict>>>) {
         Ok(())
     })();
     if let Err(e) = run {
-        s.v.notes.push(format!("client script ended early: {:?}", e));
+        s.v.notes
+            .push(format!("client script ended early: {:?}", e));
     }
     if case.end_with_drop {
         s.dap.close();
@@ -1353,7 +1650,10 @@ fn short_loc(loc: &str) -> String {
 fn sim_disk(case: &Case) -> SimDisk {
     let mut d = SimDisk::new();
     d.add_dir(WS);
-    d.add_file(format!("{}/mos.toml", WS), b"[build]\nentry = \"main.asm\"\n".to_vec());
+    d.add_file(
+        format!("{}/mos.toml", WS),
+        b"[build]\nentry = \"main.asm\"\n".to_vec(),
+    );
     d.add_file(format!("{}/main.asm", WS), case.program.as_bytes().to_vec());
     if let Some(lib) = &case.lib {
         d.add_file(format!("{}/lib.asm", WS), lib.as_bytes().to_vec());
@@ -1363,39 +1663,64 @@ fn sim_disk(case: &Case) -> SimDisk {
 
 pub fn run_case(case: &Case) -> RunResult {
     let c2 = case.clone();
-    let out = run_execution(case.seed, case.entropy_seed, sim_disk(case), &case.knobs, move |slot| scenario(&c2, slot));
+    let out = run_execution(
+        case.seed,
+        case.entropy_seed,
+        sim_disk(case),
+        &case.knobs,
+        move |slot| scenario(&c2, slot),
+    );
     let verdict = out.result.clone();
     let mut found = None;
     let mut inconclusive = false;
     match (&out.panic, &verdict) {
         (Some(p), Some(v)) if p.message.contains(ABORT_MARKER) => {
             if let Some((class, sig, msg)) = &v.found {
-                found = Some(Found { class: class.clone(), sig: sig.clone(), message: msg.clone() });
+                found = Some(Found {
+                    class: class.clone(),
+                    sig: sig.clone(),
+                    message: msg.clone(),
+                });
             }
         }
         (Some(p), _) => {
             if p.message.contains("max_steps") {
                 inconclusive = true;
             } else if p.message.starts_with("deadlock") {
-                found = Some(Found { class: "deadlock".into(), sig: "deadlock".into(), message: p.message.chars().take(600).collect() });
+                found = Some(Found {
+                    class: "deadlock".into(),
+                    sig: "deadlock".into(),
+                    message: p.message.chars().take(600).collect(),
+                });
             } else {
                 found = Some(Found {
                     class: "thread_panic".into(),
                     sig: format!("thread_panic@{}", short_loc(&p.location)),
-                    message: format!("a thread of the debug adapter panicked: {} at {}", p.message.chars().take(400).collect::<String>(), short_loc(&p.location)),
+                    message: format!(
+                        "a thread of the debug adapter panicked: {} at {}",
+                        p.message.chars().take(400).collect::<String>(),
+                        short_loc(&p.location)
+                    ),
                 });
             }
         }
         (None, Some(v)) => {
             if let Some((class, sig, msg)) = &v.found {
-                found = Some(Found { class: class.clone(), sig: sig.clone(), message: msg.clone() });
+                found = Some(Found {
+                    class: class.clone(),
+                    sig: sig.clone(),
+                    message: msg.clone(),
+                });
             }
         }
         (None, None) => inconclusive = true,
     }
     let nontrivial = found.is_none()
         && !inconclusive
-        && verdict.as_ref().map(|v| v.setup_ok && v.stops_observed >= 1).unwrap_or(false)
+        && verdict
+            .as_ref()
+            .map(|v| v.setup_ok && v.stops_observed >= 1)
+            .unwrap_or(false)
         && out.sched.context_switches >= 10
         && out.sched.max_runnable >= 3;
     RunResult {
@@ -1492,13 +1817,32 @@ fn replay(cli: &Cli, path: &Path) -> i32 {
     let r = run_case(&case);
     drop(silencer);
     if cli.opts.contains_key("dump") {
-        println!("{}", serde_json::to_string_pretty(&history_json(&r.history, 1000)).unwrap());
+        println!(
+            "{}",
+            serde_json::to_string_pretty(&history_json(&r.history, 1000)).unwrap()
+        );
         println!("verdict: {:?}", r.verdict);
         println!("panic: {}", r.panic_message);
     }
     let rr = match r.found {
-        Some(f) => ReplayResult { violated: true, sig: f.sig, class: f.class, message: f.message, log_hash: r.trace },
-        None => ReplayResult { violated: false, sig: "-".into(), class: "-".into(), message: format!("inconclusive={} verdict={:?}", r.inconclusive, r.verdict.map(|v| (v.stops_observed, v.notes))), log_hash: r.trace },
+        Some(f) => ReplayResult {
+            violated: true,
+            sig: f.sig,
+            class: f.class,
+            message: f.message,
+            log_hash: r.trace,
+        },
+        None => ReplayResult {
+            violated: false,
+            sig: "-".into(),
+            class: "-".into(),
+            message: format!(
+                "inconclusive={} verdict={:?}",
+                r.inconclusive,
+                r.verdict.map(|v| (v.stops_observed, v.notes))
+            ),
+            log_hash: r.trace,
+        },
     };
     print_replay_result(PROP, &rr)
 }
@@ -1565,16 +1909,30 @@ pub fn main(cli: &Cli) -> i32 {
                     *acc.checks.entry(k2.clone()).or_insert(0) += c;
                 }
                 for (k2, c) in [
-                    ("stops_observed", v.stops_observed), ("pauses", v.pauses), ("steps", v.steps), ("resumes", v.resumes),
-                    ("breakpoint_changes_while_running", v.bp_changes_while_running), ("steps_while_running", v.steps_while_running), ("terminated", v.terminated as u64),
-                    ("client_ops", v.ops_done), ("reference_instructions", v.trace_len as u64), ("set_variables_accepted", v.set_variables), ("pipelined_bursts", v.pipelined),
+                    ("stops_observed", v.stops_observed),
+                    ("pauses", v.pauses),
+                    ("steps", v.steps),
+                    ("resumes", v.resumes),
+                    (
+                        "breakpoint_changes_while_running",
+                        v.bp_changes_while_running,
+                    ),
+                    ("steps_while_running", v.steps_while_running),
+                    ("terminated", v.terminated as u64),
+                    ("client_ops", v.ops_done),
+                    ("reference_instructions", v.trace_len as u64),
+                    ("set_variables_accepted", v.set_variables),
+                    ("pipelined_bursts", v.pipelined),
                 ] {
                     *acc.counters.entry(k2.to_string()).or_insert(0) += c;
                 }
             }
             for (k2, v) in [
-                ("short_reads", r.net.short_reads), ("short_writes", r.net.short_writes), ("blocked_writes", r.net.blocked_writes),
-                ("fin", r.net.fin), ("rst", r.net.rst),
+                ("short_reads", r.net.short_reads),
+                ("short_writes", r.net.short_writes),
+                ("blocked_writes", r.net.blocked_writes),
+                ("fin", r.net.fin),
+                ("rst", r.net.rst),
             ] {
                 *acc.net.entry(k2.to_string()).or_insert(0) += v;
             }
@@ -1583,7 +1941,20 @@ pub fn main(cli: &Cli) -> i32 {
             }
             let mut dg = r.trace;
             dg = rng::fnv64_extend(dg, &r.steps.to_le_bytes());
-            dg = rng::fnv64_extend(dg, format!("{:?}", r.verdict.as_ref().map(|v| (v.stops_observed, v.steps, v.pauses, v.ops_done, &v.checks))).as_bytes());
+            dg = rng::fnv64_extend(
+                dg,
+                format!(
+                    "{:?}",
+                    r.verdict.as_ref().map(|v| (
+                        v.stops_observed,
+                        v.steps,
+                        v.pauses,
+                        v.ops_done,
+                        &v.checks
+                    ))
+                )
+                .as_bytes(),
+            );
             if let Some(f) = &r.found {
                 dg = rng::fnv64_extend(dg, f.sig.as_bytes());
             }
@@ -1595,12 +1966,21 @@ pub fn main(cli: &Cli) -> i32 {
                 *acc.sigs.entry(f.sig.clone()).or_insert(0) += 1;
                 if !determinism && !acc.violations.iter().any(|v| v.sig == f.sig) {
                     let m = minimise(&case, &f.sig);
-                    let mf = run_case(&m).found.filter(|x| x.sig == f.sig).unwrap_or(f.clone());
+                    let mf = run_case(&m)
+                        .found
+                        .filter(|x| x.sig == f.sig)
+                        .unwrap_or(f.clone());
                     acc.violations.push(Violation {
                         property: PROP,
                         class: mf.class.clone(),
                         sig: mf.sig.clone(),
-                        message: format!("C19 run {} ({} client ops, minimised to {}): {}", k, case.ops.len(), m.ops.len(), mf.message),
+                        message: format!(
+                            "C19 run {} ({} client ops, minimised to {}): {}",
+                            k,
+                            case.ops.len(),
+                            m.ops.len(),
+                            mf.message
+                        ),
                         run_index: k,
                         replay: m.to_json(),
                     });
@@ -1652,7 +2032,10 @@ pub fn main(cli: &Cli) -> i32 {
         batch = rng::fnv64_extend(batch, &h.to_le_bytes());
     }
     if determinism {
-        println!("DETERMINISM engine=threadsim/C19 runs={} batch_hash={:016x}", acc.runs, batch);
+        println!(
+            "DETERMINISM engine=threadsim/C19 runs={} batch_hash={:016x}",
+            acc.runs, batch
+        );
         return EXIT_OK;
     }
     acc.samples.sort_by_key(|(k, _)| *k);
@@ -1675,7 +2058,10 @@ pub fn main(cli: &Cli) -> i32 {
     ev.set("context_switches", json!(acc.switches));
     ev.set("simulated_time_ms", json!(acc.sim_us / 1000));
     ev.set("distinct_interleavings", json!(acc.traces.len()));
-    ev.set("interleaving_measure", json!("distinct hashes of the sequence of tasks chosen at context switches"));
+    ev.set(
+        "interleaving_measure",
+        json!("distinct hashes of the sequence of tasks chosen at context switches"),
+    );
     ev.set("fault_kinds_injected", json!(acc.net));
     ev.set("probes", json!(acc.probes));
     ev.set("violation_signatures_seen_in_batch", json!(acc.sigs));
@@ -1693,7 +2079,11 @@ pub fn main(cli: &Cli) -> i32 {
     ];
     let mut code = conclude(cli, &mut ev, acc.violations);
     if (acc.inconclusive + acc.setup_failed) * 20 > acc.runs && code == EXIT_OK {
-        eprintln!("harness error: {} of {} executions inconclusive or without a session", acc.inconclusive + acc.setup_failed, acc.runs);
+        eprintln!(
+            "harness error: {} of {} executions inconclusive or without a session",
+            acc.inconclusive + acc.setup_failed,
+            acc.runs
+        );
         code = EXIT_HARNESS;
     }
     code
